@@ -107,6 +107,10 @@ impl User {
         msg: &Message<'_>,
         source: &str,
     ) -> Result<(), SendError<String>> {
+        #[cfg(simple_irc_server_verif)]
+        if !self.sender.is_closed() {
+            super::verif::enq();
+        }
         self.sender.send(msg.to_string_with_source(source))
     }
 
@@ -115,6 +119,10 @@ impl User {
         source: &str,
         t: T,
     ) -> Result<(), SendError<String>> {
+        #[cfg(simple_irc_server_verif)]
+        if !self.sender.is_closed() {
+            super::verif::enq();
+        }
         self.sender.send(format!(":{} {}", source, t))
     }
 }
@@ -587,6 +595,8 @@ pub(crate) struct ConnState {
     pub(super) caps: CapState,
     pub(super) quit: Arc<AtomicI32>,
     pub(super) conns_count: Arc<AtomicUsize>,
+    #[cfg(simple_irc_server_verif)]
+    pub(super) verif_key: String,
 }
 
 impl ConnState {
@@ -623,6 +633,8 @@ impl ConnState {
             caps: CapState::default(),
             quit: Arc::new(AtomicI32::new(0)),
             conns_count,
+            #[cfg(simple_irc_server_verif)]
+            verif_key: String::new(),
         }
     }
 
@@ -669,6 +681,8 @@ impl ConnState {
 impl Drop for ConnState {
     fn drop(&mut self) {
         self.conns_count.fetch_sub(1, Ordering::SeqCst);
+        #[cfg(simple_irc_server_verif)]
+        super::verif::dropped(self);
     }
 }
 
